@@ -187,6 +187,7 @@ def check(case):
     d = env.new_dir('c03')
     env.fresh_db()
     db1 = env.db_path().parent
+    wn._add.BATCH_SIZE = case.get('batch', 1000)     # small batches: every list of the document spans several
     try:
         if case.get('twin') == 'before':
             T0 = twin_of(R['lexicons'][0], case['doc']['v'])
@@ -338,6 +339,7 @@ def check(case):
         return {'v': V, 'd': runner.digest(out.read_text()[:20000])}
     finally:
         import shutil
+        wn._add.BATCH_SIZE = 1000
         env.drop_db(db1)
         shutil.rmtree(d, ignore_errors=True)
 
@@ -348,6 +350,9 @@ def space(tier, seed):
     for v in docs.VERSIONS:
         src_cases = docgen.feature_space(v, 1, flags=fl) + [c for c in docgen.multi_space(v) if 'X' not in c['order']]
         src_cases += docgen.shape_space(v, counts=(0, 1, 3))
+        # several lexicons in one export that each own a frame without an id
+        src_cases += [{'v': v, 'kind': 'multi', 'order': o, 'flags': list(fl), 'sframes': True}
+                      for o in (['M', 'S'], ['S', 'T'], ['T', 'M', 'S'])]
         for e in docs.VERSIONS:
             quick_pair = (v in ('1.0', '1.3') or e == v) and (e in ('1.0', '1.1', '1.3'))
             if tier == 'quick' and not quick_pair:
@@ -368,6 +373,9 @@ def space(tier, seed):
                 cases.append({'doc': {'v': v, 'kind': 'feat', 'base': 'M', 'delta': []}, 'e': e, 'numscore': score})
             for tw in ('before', 'after'):
                 cases.append({'doc': {'v': v, 'kind': 'feat', 'base': 'M', 'delta': []}, 'e': e, 'twin': tw})
+            # the maximal document added in batches of 1 and 2 rows (every list spans several batches)
+            for bs in (1, 2):
+                cases.append({'doc': {'v': v, 'kind': 'feat', 'base': 'M', 'delta': []}, 'e': e, 'batch': bs})
     pvers = docs.VERSIONS if tier == 'thorough' else ['1.3']
     for v in pvers:
         for c in docgen.payload_space(v):
